@@ -89,22 +89,32 @@ def rand_batch(rng):
         elif r < 0.8:
             d = problems.rand_soft(rng, base, allow=SOFT)
         else:
-            d = dict(kind="cai", location=problems.rand_loc(rng, n, codon=True), table_seed=rng.choice([11, 22]), boost=1)
+            loc = problems.rand_loc(rng, n, codon=True)
+            d = rng.choice([dict(kind="cai", location=loc, table_seed=rng.choice([11, 22]), boost=1),
+                            dict(kind="rca", location=loc, table_seed=rng.choice([11, 22]), orig_table_seed=rng.choice([22, 33]), boost=1),
+                            dict(kind="rare", location=loc, min_frequency=rng.choice([0.1, 0.2]), table_seed=rng.choice([11, 22]))])
         if d.get("location") is None and d["kind"] in ("pattern", "gcwin", "kmers", "hairpin", "keep_edits", "insert"):
             d["location"] = [0, n, rng.choice([0, 1])] if d["kind"] in ("pattern", "insert") else [0, n, 0]
         shared.append(d)
-    shared_cons = [i for i, d in enumerate(shared) if d["kind"] != "cai"]
-    shared_objs = [i for i, d in enumerate(shared) if d["kind"] == "cai"]
+    shared_cons = [i for i, d in enumerate(shared) if d["kind"] not in ("cai", "rca")]
+    shared_objs = [i for i, d in enumerate(shared) if d["kind"] in ("cai", "rca")]
     pbs = []
     for _ in range(rng.randint(10, 16)):
         seq = "".join(ch if rng.random() > 0.3 else rng.choice("ATGC") for ch in base) if rng.random() < 0.7 else hard.rand_seq(rng, n)
         own = [problems.rand_soft(rng, seq, allow=SOFT) for _ in range(rng.randint(0, 2))]
+        if rng.random() < 0.35:
+            # codon-table consumers built per problem on the shared table dicts (same seed = same dict object in a process)
+            loc = problems.rand_loc(rng, n, codon=True)
+            own.append(dict(kind="rare", location=loc, min_frequency=rng.choice([0.1, 0.2, 0.3]), table_seed=rng.choice([11, 22, 33])))
         objs = []
         if rng.random() < 0.5:
             o = problems.rand_objective(rng, seq)
             if not o["kind"].startswith("user"):
                 if o["kind"] == "cai":
                     o["table_seed"] = rng.choice([11, 22, 33])
+                    if rng.random() < 0.4:
+                        o = dict(kind="rca", location=o["location"], table_seed=rng.choice([11, 22, 33]),
+                                 orig_table_seed=rng.choice([11, 22, 33]), boost=o["boost"])
                 objs.append(o)
         pbs.append(dict(sequence=seq, shared_constraints=[i for i in shared_cons if rng.random() < 0.6],
                         shared_objectives=[i for i in shared_objs if rng.random() < 0.6], constraints=own, objectives=objs,
